@@ -130,6 +130,9 @@ type Plan struct {
 	// because encoding/gob writes maps in hash order).
 	Entry string `json:"entry,omitempty"`
 	Input []byte `json:"input,omitempty"`
+	// Knobs: the draws that configured the process before an explicit-bytes run (C04: extension
+	// hooks installed, DefaultLang set, exported lists grown) – part of what a replay must restore.
+	Knobs []uint32 `json:"knobs,omitempty"`
 	// Case is a fully explicit case for enumeration tiers (no tape involved).
 	Case json.RawMessage `json:"case,omitempty"`
 	// History: the runs the same process executed before this one (batch seed, first index,
@@ -261,6 +264,7 @@ type Ctx struct {
 	// Entry / Input: explicit bytes for one decode entry point (C04 replay).
 	Entry string
 	Input []byte
+	Knobs []uint32
 	// PlanOut, if set by the workload, replaces the tape-based plan in the
 	// violation record.
 	PlanOut *Plan
